@@ -34,7 +34,15 @@ RULE = (
     'order, second use (same objects again, after display/copy, after a caught exception, result fed back), the '
     'kernel as a node of a caller-built transform_coords graph (graph displayed / deep-copied / pickled); in situ '
     'once per shard: masks (pixel, x, bin, event level), tof coordinates with variances, pixel dim named '
-    'x / event / row, names as numpy.str_ / (str, Enum) and scatter as numpy.bool_; one shard with the heavy cases '
+    'x / event / row, names as numpy.str_ / (str, Enum) and scatter as numpy.bool_; once per kernel, operand and '
+    'shard: the operand modified IN PLACE between two calls with the same objects (in-place arithmetic, elements '
+    'through .values, .values = ..., a slice, .unit = ...; sibling kernels on the same objects before / after), the '
+    'earlier result must not follow the argument, the arguments must not follow a write into the result and the '
+    'call must be repeatable after it, new operand objects at recycled addresses; coordinates of one DataArray '
+    'modified in place between two convert() calls (dense, binned); dims whose names are not NFC / NFKC and '
+    'normalise alike (distinct dims), decoy coordinates / quantity names that only normalise to the real names; '
+    'three fresh interpreters per run that import only scippneutron.conversion.tof and call every kernel once '
+    '(judged by the same oracle); one shard with the heavy cases '
     '(2**20+7 elements, 3 x 400001, 2**20+7 events; convert() of 2**18 events); a case is '
     'non-trivial unless scalar+SI+float64; distinct = distinct (kernel, dtypes, units, '
     'shape class, magnitude band) signatures'
@@ -406,11 +414,25 @@ CLASS_ROUNDS = {
     'names': {'shape': ['binned', 'per_pixel_2d', 'outer_1d', 'binned_2d', 'free'], 'rename': True},
     'dataarray': {'shape': ['1d', '2d_broadcast', 'per_pixel_2d', 'per_pixel_1d', 'transposed_2d'], 'wrap': True},
     'graphnode': {'shape': ['per_pixel_2d', 'binned', 'per_pixel_1d', '1d'], 'aux': True},
+    'names_unicode': {'shape': ['outer_1d', 'outer_2d', 'binned_2d', 'free', 'per_pixel_2d'], 'rename': 'unicode'},
+    'inplace': {'shape': ['scalar', '1d', '2d_broadcast', 'per_pixel_2d', 'per_pixel_1d', 'transposed_2d', 'binned',
+                          'outer_1d'], 'aux': True},
+    'fresh': {'shape': ['scalar', '1d', '2d_broadcast', 'per_pixel_2d', 'per_pixel_1d', 'outer_1d'], 'aux': True},
 }
 FORCED_ROUNDS = ['slice', 'uniform', 'outer_1d', 'outer_2d', 'binned_2d', 'binned_outer',
                  *[c for c, v in CLASS_ROUNDS.items() if not v.get('aux')]]
 HOSTILE_DIMS = ['event', 'x', 'row', 'Ltotal', 'two_theta', 'tof', 'vertex', 'range', 'rotation',
                 '6f2d7c1e-1b0a-4c59-9a57-3f0e8d2b4a11']
+# dim names that are not in NFC / NFKC form, in families whose members normalise to the same string: they are
+# DIFFERENT names (a str is its code points), so operands on them are on different dims
+UNICODE_DIMS = [
+    ('\u212b', '\u00c5', 'A\u030a', '\uff21'),              # ANGSTROM SIGN, A-ring composed / decomposed, fullwidth A
+    ('\u212a', 'K', '\uff2b', '\u2126'),                    # KELVIN SIGN, K, fullwidth K, OHM SIGN
+    ('\u03a9', '\u2126', '\u00b5', '\u03bc'),               # Omega / OHM SIGN, MICRO SIGN / mu
+    ('\ufb01', 'fi', '\u1112\u1161\u11ab', '\ud55c'),        # ligature fi / 'fi', conjoining jamo / the syllable
+    (';', '\u037e', 'e\u0301', '\u00e9'),                   # Greek question mark / semicolon, e + acute / e-acute
+    ('\uff54\uff4f\uff46', 'tof', 'two\uff3ftheta', 'two_theta'),   # fullwidth forms of names of operands
+]
 
 
 def _layout(rng, shape_cls, names, npix, nt):
@@ -639,9 +661,14 @@ def gen_case(rng, ctx, kernel=None, force=None):
     if spec.get('rename'):
         # the kernels are dim-name agnostic: any names a caller may pick, also those of the operands themselves, of
         # the event dim inside the bins, and names scipp / scippneutron use internally
-        pick = [HOSTILE_DIMS[i] for i in rng.permutation(len(HOSTILE_DIMS))[:len(POOL)]]
+        uni = spec['rename'] == 'unicode'
+        if uni:
+            fam = UNICODE_DIMS[int(rng.integers(0, len(UNICODE_DIMS)))]
+            pick = [fam[i] for i in rng.permutation(len(fam))]
+        else:
+            pick = [HOSTILE_DIMS[i] for i in rng.permutation(len(HOSTILE_DIMS))[:len(POOL)]]
         ren = dict(zip(POOL, pick, strict=True))
-        if ops.is_binned(kw[data_name]):
+        if ops.is_binned(kw[data_name]) and not uni:
             # an outer dim named like the event dim of the buffer
             tgt = kw[data_name].dims[-1]
             for d0 in POOL:
@@ -652,7 +679,8 @@ def gen_case(rng, ctx, kernel=None, force=None):
         # (in two steps: a permutation of names cannot be renamed at once)
         kw = {n: (v.rename_dims({d: '_tmp_' + d for d in v.dims}).rename_dims({'_tmp_' + d: ren[d] for d in v.dims})
                   if v.dims else v) for n, v in kw.items()}
-        ctx.hit('dims named like operands / internal names')
+        ctx.hit('dims named with code points that are not NFC / NFKC (distinct names that normalise alike)' if uni
+                else 'dims named like operands / internal names')
     if spec.get('wrap'):
         v = kw[data_name]
         m = rng.random(size=v.shape) < 0.4
@@ -869,6 +897,446 @@ def graph_node(rng, ctx, K, kernel, k, origin):
         ctx.violation('graph_node', f'{kernel}: the coordinate computed through the graph differs from the direct call',
                       descr, kernel=kernel)
     return case
+
+
+# --------------------------------- in-place modification, aliasing, recycled ids ---
+UNITS_OF = {'tof': TIME_UNITS, 'Ltotal': LEN_UNITS, 'wavelength': WAV_UNITS, 'energy': EN_UNITS, 'Q': Q_UNITS,
+            'two_theta': ANG_UNITS}
+UNITS_OF_F32 = {'tof': ['us', 'ms'], 'Ltotal': ['m', 'mm', 'cm'], 'wavelength': ['angstrom', 'nm'],
+                'energy': ['meV', 'eV'], 'Q': ['1/angstrom', '1/nm'], 'two_theta': ANG_UNITS}
+# the ways a caller can change the contents of a variable it holds, without creating a new object
+#   arith    in-place arithmetic on the whole variable (v *= g, v += delta)
+#   element  single elements written through the numpy view v.values (v.value = x for a 0-d variable)
+#   values   the whole array replaced through the setter v.values = ...
+#   slice    a slice of the variable written (v[dim, a:b] as the target of an in-place operation / of .values = ...)
+#   unit     v.unit = another unit of the same dimension (the numbers re-expressed, or -- angles, integers -- kept,
+#            so that the same numbers now mean another quantity)
+MUTATIONS = ['arith', 'element', 'values', 'slice', 'unit']
+
+
+def _new_numbers(old, g):
+    """Other valid numbers of the same class: floats scaled by 0.55..0.95 (angles stay in (0, pi]), whole numbers
+    moved by one (down, the ones up: whole angles stay <= the largest whole angle below pi, which is >= 3)."""
+    if old.dtype.kind in 'iu':
+        return np.where(old > 1, old - 1, 2).astype(old.dtype)
+    return (old.astype(np.float64) * g).astype(old.dtype)
+
+
+def _mutate(rng, name, v, kind, f32case):
+    """Change the contents of the operand ``v`` in place (the object stays the same).  Returns a short description,
+    or None where the kind does not apply to this operand."""
+    g = float(rng.uniform(0.55, 0.95))
+    binned = ops.is_binned(v)
+    buf = v.bins.constituents['data'] if binned else v  # (a view of the event buffer)
+    old = np.array(buf.values)
+    is_int = old.dtype.kind in 'iu'
+    new = _new_numbers(old, g)
+    if kind == 'arith':
+        if not is_int:
+            v *= sc.scalar(g)
+            return 'v *= %r' % g
+        delta = new - old
+        buf += (sc.array(dims=buf.dims, values=delta, unit=buf.unit, dtype='int64') if buf.ndim
+                else sc.scalar(int(delta), unit=buf.unit, dtype='int64'))
+        return 'v += delta'
+    if kind == 'element':
+        if buf.ndim == 0:
+            buf.value = new.item()
+            return 'v.value = x'
+        if old.size == 0:
+            return None
+        view = buf.values
+        pick = rng.random(size=old.shape) < 0.4
+        pick[tuple(int(rng.integers(0, m)) for m in old.shape)] = True
+        view[pick] = new[pick]
+        return 'v.values[mask] = x'
+    if kind == 'values':
+        buf.values = new
+        return 'v.values = array'
+    if kind == 'slice':
+        if v.ndim == 0 or (binned and is_int):
+            return None
+        d = v.dims[int(rng.integers(0, v.ndim))]
+        m = v.sizes[d]
+        a = int(rng.integers(0, m))
+        b = int(rng.integers(a + 1, m + 1))
+        sl = v[d, a:b]
+        if binned:
+            sl *= sc.scalar(g)
+            return 'v[dim, a:b] *= %r (bins)' % g
+        sl.values = _new_numbers(np.array(sl.values), g)
+        return 'v[dim, a:b].values = array'
+    if kind == 'unit':
+        cur = ops.elem_unit(v)
+        cands = [u for u in dict.fromkeys((UNITS_OF_F32 if f32case else UNITS_OF)[name]) if sc.Unit(u) != cur]
+        if not cands:
+            return None
+        nu = cands[int(rng.integers(0, len(cands)))]
+        if name == 'two_theta':
+            # the same numbers in a smaller angular unit are a smaller, valid angle
+            smaller = [u for u in cands if si.factor(sc.Unit(u)) < si.factor(cur)]
+            if smaller and (is_int or rng.random() < 0.5):
+                nu = smaller[int(rng.integers(0, len(smaller)))]
+                v.unit = nu
+                return f'v.unit = {nu!r} (numbers kept)'
+            if is_int:
+                return None
+        if is_int:
+            v.unit = nu
+            return f'v.unit = {nu!r} (numbers kept)'
+        ratio = si.factor(cur) / si.factor(sc.Unit(nu))
+        v.unit = nu
+        buf = v.bins.constituents['data'] if binned else v
+        buf.values = (old.astype(si.LD) * si.LD(g) * ratio).astype(old.dtype)
+        return f'v.unit = {nu!r}; v.values = array'
+    raise KeyError(kind)
+
+
+def _same(a, b):
+    return sc.identical(a, b, equal_nan=True)
+
+
+def in_place(rng, ctx, K, kernel):
+    """Operands that are modified IN PLACE between two calls, and aliasing between result and arguments.
+
+    For every operand of the kernel and every way of changing a variable in place: call (and the sibling kernels
+    that take a subset of the same operands, with the same objects); change the operand; (l.1) the result obtained
+    earlier is unchanged; (k) call again with the very same objects -- the monitor judges the return against the
+    definition for the contents the operands have NOW, siblings first every other time; the result equals that for
+    fresh copies of the operands; (l.2) write into the result: the operands are unchanged and repeating the call
+    gives the result again."""
+    names = OPERANDS[kernel]
+    f = getattr(K, kernel)
+    siblings = [k2 for k2 in OPERANDS if k2 != kernel and set(OPERANDS[k2]) <= set(names)]
+    turn = 0
+    for n in names:
+        for kind in MUTATIONS:
+            turn += 1
+            case = gen_case(rng, ctx, kernel, force='inplace')
+            kw = case['kw']
+            descr = {'in_place': kernel, 'operand': n, 'how': kind,
+                     'args before': {m: _descr(v) for m, v in kw.items()}}
+            f32case = any(ops.elem_dtype(v) == sc.DType.float32 for v in kw.values())
+
+            def call_siblings(kw=kw):
+                for k2 in siblings:
+                    try:
+                        getattr(K, k2)(**{m: kw[m] for m in OPERANDS[k2]})
+                    except Exception:  # noqa: BLE001  (judged by the monitor)
+                        pass
+
+            try:
+                r1 = f(**kw)
+            except Exception:  # noqa: BLE001  (judged by the monitor; scipp's refusals of variances end here)
+                ctx.count('in place: first call raised (judged by the monitor)')
+                continue
+            call_siblings()
+            try:
+                snap1 = r1.copy()
+                others = {m: v.copy() for m, v in kw.items() if m != n}
+                how = _mutate(rng, n, kw[n], kind, f32case)
+            except Exception as e:  # noqa: BLE001  (container work of the harness that scipp refuses)
+                ctx.count(f'in place: {kind} not possible on this operand ({type(e).__name__})')
+                continue
+            if how is None:
+                ctx.count(f'in place: {kind} does not apply to this operand')
+                continue
+            descr['how'] = how
+            descr['args'] = {m: _descr(v) for m, v in kw.items()}
+            ctx.hit('in place: ' + kind)
+            ctx.hit('in place: operand ' + n)
+            ctx.case((*case['sig'], 'in place', n, kind), trivial=False)
+            # (l.1) a result handed out earlier does not follow its arguments
+            ctx.event('aliasing')
+            if not _same(r1, snap1):
+                ctx.violation('aliasing', f'{kernel}: the result obtained BEFORE {n} was modified in place ({how}) '
+                              'changed with it', descr, kernel=kernel, mechanism='result follows argument')
+            if any(not _same(kw[m], others[m]) for m in others):
+                ctx.oracle_error('C01 in place: another operand changed with the modified one (harness)')
+                continue
+            # (k) the same objects again: results for the NEW contents (the monitor judges each return)
+            if turn % 2:
+                call_siblings()
+            try:
+                r2 = f(**kw)
+            except Exception:  # noqa: BLE001  (judged by the monitor)
+                continue
+            if not turn % 2:
+                call_siblings()
+            try:
+                fresh = f(**{m: v.copy() for m, v in kw.items()})
+            except Exception:  # noqa: BLE001
+                continue
+            ctx.event('in_place')
+            if not _same(r2, fresh):
+                ctx.violation('in_place', f'{kernel}: after {n} was modified in place ({how}) the call with the same '
+                              'objects differs from the call with fresh copies of them', descr, kernel=kernel,
+                              operand=n)
+                continue
+            # (l.2) writing into the result leaves the arguments alone, and the call can be repeated
+            try:
+                r2 = f(**kw)  # (the call whose result is written to is the one made last)
+            except Exception:  # noqa: BLE001
+                continue
+            try:
+                snap2 = r2.copy()
+                args_now = {m: v.copy() for m, v in kw.items()}
+                if ops.is_binned(r2):
+                    r2 *= sc.scalar(-3.0)
+                else:
+                    buf = np.array(r2.values)
+                    r2.values = -3 * buf - 1
+            except Exception as e:  # noqa: BLE001
+                ctx.count(f'aliasing: the result could not be written ({type(e).__name__})')
+                continue
+            ctx.event('aliasing')
+            bad = [m for m in kw if not _same(kw[m], args_now[m])]
+            if bad:
+                ctx.violation('aliasing', f'{kernel}: writing into the result changed the argument(s) {bad}', descr,
+                              kernel=kernel, mechanism='argument follows result')
+                continue
+            try:
+                r3 = f(**kw)
+            except Exception:  # noqa: BLE001
+                continue
+            if not _same(r3, snap2):
+                ctx.violation('aliasing', f'{kernel}: after writing into the result, the same call gives another '
+                              'result than before', descr, kernel=kernel, mechanism='repeat after result was written')
+    # fresh operand objects at recycled addresses: the objects of the previous call are gone, new ones with other
+    # contents take their place in memory (CPython hands the same addresses out again)
+    case = gen_case(rng, ctx, kernel, force='inplace')
+    tmp = {m: v.copy() for m, v in case['kw'].items()}
+    recycled = False
+    for _ in range(4):
+        ids = {id(v) for v in tmp.values()}
+        try:
+            f(**tmp)
+        except Exception:  # noqa: BLE001
+            break
+        nxt = {}
+        for m in list(tmp):
+            v = tmp.pop(m)
+            w = v.copy()
+            del v
+            try:
+                _mutate(rng, m, w, 'values', False)
+            except Exception:  # noqa: BLE001
+                pass
+            nxt[m] = w
+        tmp = nxt
+        recycled = recycled or bool(ids & {id(v) for v in tmp.values()})
+    if recycled:
+        ctx.hit('new operand objects at the addresses of released ones')
+
+
+# ------------------------------------------------- first call in a fresh interpreter ---
+_FRESH_SCRIPT = r"""
+import json, sys
+spec = json.loads(sys.stdin.read())
+out = []
+try:
+    from scippneutron.conversion import tof as K   # the module of the entry points and nothing else
+    import numpy as np
+    import scipp as sc
+    def build(o):
+        if o['dtype'] == 'int64':
+            vals = np.array(o['values'], dtype=np.int64)
+        else:
+            vals = np.array([float.fromhex(x) for x in o['values']], dtype=o['dtype'])
+        if not o['dims']:
+            return sc.scalar(vals.reshape(()).item() if o['dtype'] == 'int64' else vals.reshape(())[()],
+                             unit=o['unit'], dtype=o['dtype'])
+        return sc.array(dims=o['dims'], values=vals.reshape(o['shape']), unit=o['unit'], dtype=o['dtype'])
+except BaseException as e:
+    print(json.dumps({'import_error': type(e).__name__ + ': ' + str(e)}))
+    sys.exit(0)
+for call in spec:
+    try:
+        r = getattr(K, call['kernel'])(**{n: build(o) for n, o in call['args'].items()})
+        out.append({'dims': list(r.dims), 'shape': list(r.shape), 'unit': str(r.unit), 'dtype': str(r.dtype),
+                    'values': [float(x).hex() for x in np.ravel(r.values)]})
+    except BaseException as e:
+        out.append({'error': type(e).__name__ + ': ' + str(e)})
+print(json.dumps({'results': out, 'modules': sorted(m for m in sys.modules if m.startswith('scippneutron'))}))
+"""
+
+
+def fresh_interpreter(rng, ctx, K, first):
+    """Every kernel called in an interpreter that has imported nothing but ``scippneutron.conversion.tof`` (kernel
+    number ``first`` is the very first call made there): judged like any other return, by the same oracle."""
+    import json
+    import os
+    import subprocess
+    import sys
+
+    kernels = list(OPERANDS)
+    order = kernels[first:] + kernels[:first]
+    calls, spec = [], []
+    for kernel in order:
+        case = gen_case(rng, ctx, kernel, force='fresh')
+        kw, a = case['kw'], {}
+        units = dict(zip(OPERANDS[kernel], case['sig'][2], strict=True))
+        for n, v in kw.items():
+            dt = str(v.dtype)
+            vals = np.ravel(v.values)
+            a[n] = {'dims': list(v.dims), 'shape': list(v.shape), 'unit': units[n], 'dtype': dt,
+                    'values': [int(x) for x in vals] if dt == 'int64' else [float(x).hex() for x in vals]}
+            if sc.Unit(units[n]) != v.unit:
+                ctx.oracle_error('C01 fresh interpreter: unit bookkeeping')
+                return
+        calls.append((kernel, kw))
+        spec.append({'kernel': kernel, 'args': a})
+    env = dict(os.environ)
+    env['PYTHONPATH'] = os.pathsep.join(p for p in sys.path if p)
+    try:
+        proc = subprocess.run([sys.executable, '-c', _FRESH_SCRIPT], input=json.dumps(spec), capture_output=True,
+                              text=True, env=env, timeout=300, check=False)
+        reply = json.loads(proc.stdout.strip().splitlines()[-1])
+    except Exception:  # noqa: BLE001
+        ctx.oracle_error('C01 fresh interpreter: no reply from the subprocess')
+        return
+    if 'import_error' in reply:
+        ctx.violation('fresh_interpreter', 'importing scippneutron.conversion.tof alone in a fresh interpreter failed: '
+                      + reply['import_error'], {'fresh_interpreter': 'import'}, kernel='import')
+        return
+    ctx.hit('first call in a fresh interpreter with minimal imports')
+    ctx.extra['fresh_interpreter_modules'] = reply.get('modules')
+    for (kernel, kw), got in zip(calls, reply['results'], strict=True):
+        descr = {'fresh_interpreter': kernel, 'first call there': order[0], 'args': {n: _descr(v) for n, v in kw.items()}}
+        try:
+            here = getattr(K, kernel)(**kw)  # (judged by the monitor)
+        except Exception:  # noqa: BLE001
+            here = None
+        if 'error' in got:
+            if here is not None:
+                ctx.violation('fresh_interpreter', f'{kernel} raised in a fresh interpreter that imported only its '
+                              f'module, not in the worker: {got["error"]}', descr, kernel=kernel)
+            else:
+                ctx.count('fresh interpreter: raised there and here (judged by the monitor)')
+            continue
+        if here is None:
+            ctx.count('fresh interpreter: raised here only (judged by the monitor)')
+            continue
+        ctx.event('fresh_interpreter')
+        if got['unit'] != str(here.unit) or got['dtype'] != str(here.dtype) or set(got['dims']) != set(here.dims):
+            ctx.violation('fresh_interpreter', f'{kernel}: unit / dtype / dims in a fresh interpreter '
+                          f'({got["unit"]}, {got["dtype"]}, {got["dims"]}) differ from those in the worker '
+                          f'({here.unit}, {here.dtype}, {here.dims})', descr, kernel=kernel)
+            continue
+        try:
+            vals = np.array([float.fromhex(x) for x in got['values']], dtype=got['dtype']).reshape(got['shape'])
+            res = (sc.array(dims=got['dims'], values=vals, unit=here.unit, dtype=here.dtype) if got['dims']
+                   else sc.scalar(vals[()], unit=here.unit, dtype=here.dtype))
+        except Exception:  # noqa: BLE001
+            ctx.oracle_error('C01 fresh interpreter: rebuilding the result')
+            continue
+        judge_kernel(ctx, kernel, kw, res, None, 'fresh interpreter')
+        if not _same(res if res.dims == here.dims else res.transpose(here.dims), here):
+            ctx.count('fresh interpreter: result differs from the one in the worker (within the bound if not reported)')
+
+
+def decoy_names(rng, ctx, scn):
+    """Coordinates whose names merely NORMALISE (NFKC) to 'tof' / 'Ltotal' / 'two_theta' sit next to the real ones and
+    hold other numbers: they are other names, the conversion uses the real ones; and a quantity name that merely
+    normalises to a valid one is not that quantity (refused, counted)."""
+    npix, nt = int(rng.integers(2, 5)), int(rng.integers(2, 9))
+    t = _draw_si(rng, npix * nt, 1e-6, 1e-1).reshape(npix, nt)
+    L = _draw_si(rng, npix, 0.1, 1e3)
+    tt = rng.uniform(1e-3, np.pi, size=npix)
+    coords = {'tof': sc.array(dims=['pixel', 'tof'], values=_as_unit(t, 'us'), unit='us'),
+              'Ltotal': sc.array(dims=['pixel'], values=L, unit='m'),
+              'two_theta': sc.array(dims=['pixel'], values=tt, unit='rad')}
+    # fullwidth letters / low line, SMALL ROMAN NUMERAL FIFTY, MODIFIER LETTER SMALL H, SOFT HYPHEN
+    decoys = {'\uff54\uff4f\uff46': coords['tof'] * 1.37, 'Ltota\u217c': coords['Ltotal'] * 0.61,
+              'two\uff3ftheta': coords['two_theta'] * 0.43, 'wavelengt\u02b0': coords['tof'] * 2.0,
+              'Lt\u00adotal': coords['Ltotal'] * 3.0}
+    plain = sc.DataArray(sc.ones(dims=['pixel', 'tof'], shape=[npix, nt]), coords=coords)
+    da = sc.DataArray(sc.ones(dims=['pixel', 'tof'], shape=[npix, nt]), coords={**decoys, **coords})
+    case = {'in_situ': 'decoy coordinate names', 'npix': npix, 'nt': nt}
+    for target in ('wavelength', 'energy', 'dspacing', 'Q'):
+        a = scn.convert(da, 'tof', target, scatter=True)
+        b = scn.convert(plain, 'tof', target, scatter=True)
+        _pair(ctx, 'decoy names: tof->' + target, a.coords[target], b.coords[target], 2 * TOL64, case)
+        # (transform_coords renames the dim 'tof' of every coordinate: numbers and unit are what is compared)
+        lost = [k for k in decoys if k not in a.coords or a.coords[k].unit != decoys[k].unit
+                or not np.array_equal(a.coords[k].values, decoys[k].values)]
+        if lost:
+            ctx.violation('unicode_name', f'convert tof->{target}: coordinates named {lost} (not names of the graph) '
+                          'were changed or dropped', case, mechanism='decoy changed')
+    ctx.hit('convert: coordinates whose names only normalise to tof / Ltotal / two_theta next to the real ones')
+    import unicodedata
+
+    for origin, target in (('\uff54\uff4f\uff46', 'wavelength'), ('tof', '\uff44spacing'), ('tof', 'wavelength\u0301'),
+                           ('tof', '\uff31'), ('tof', 'Q\u200b'), ('tof', 'energ\u0443')):
+        try:
+            out = scn.convert(da, origin, target, scatter=True)
+        except Exception:  # noqa: BLE001
+            ctx.count('refused: quantity name that only normalises to / looks like a valid one')
+            ctx.event('unicode_name.refused')
+            continue
+        new = [k for k in out.coords if k not in da.coords]
+        norm = unicodedata.normalize('NFKC', target)
+        if new:
+            ctx.violation('unicode_name', f'convert({origin!r}, {target!r}): not both are names of quantities (they only '
+                          f'normalise to {unicodedata.normalize("NFKC", origin)!r}, {norm!r}), yet {new} was computed', case,
+                          mechanism='normalised name accepted')
+        else:
+            ctx.count('accepted without computing anything: quantity name that only normalises to a valid one')
+
+
+def in_situ_in_place(rng, ctx, scn, binned):
+    """convert() again after the coordinates of the SAME DataArray were changed in place (through the views
+    ``da.coords[...]`` / ``da.bins.coords[...]`` hands out): the kernels are judged by the monitor on what they are
+    given; the converted coordinate equals the one of a deep copy of the modified input."""
+    npix, nt = int(rng.integers(2, 5)), int(rng.integers(2, 9))
+    L = _draw_si(rng, npix, 0.1, 1e3)
+    tt = rng.uniform(1e-3, np.pi, size=npix)
+    coords = {'Ltotal': sc.array(dims=['pixel'], values=L, unit='m'),
+              'two_theta': sc.array(dims=['pixel'], values=tt, unit='rad')}
+    if binned:
+        sizes = rng.integers(1, 5, size=npix)
+        nev = int(sizes.sum())
+        ev = sc.DataArray(sc.ones(dims=['event'], shape=[nev], unit='counts'),
+                          coords={'tof': sc.array(dims=['event'], values=_as_unit(_draw_si(rng, nev, 1e-6, 1e-1), 'us'),
+                                                  unit='us')})
+        end = np.cumsum(sizes)
+        da = sc.DataArray(sc.bins(begin=sc.array(dims=['pixel'], values=end - sizes, unit=None),
+                                  end=sc.array(dims=['pixel'], values=end, unit=None), dim='event', data=ev),
+                          coords=coords)
+    else:
+        t = _draw_si(rng, npix * nt, 1e-6, 1e-1).reshape(npix, nt)
+        da = sc.DataArray(sc.ones(dims=['pixel', 'tof'], shape=[npix, nt]),
+                          coords={**coords, 'tof': sc.array(dims=['pixel', 'tof'], values=_as_unit(t, 'us'), unit='us')})
+    case = {'in_situ': 'coordinates modified in place between two convert() calls', 'binned': binned, 'npix': npix}
+
+    def tofc():
+        return da.bins.coords['tof'] if binned else da.coords['tof']
+
+    def get(d, name):
+        return d.bins.coords[name] if binned and name in d.bins.coords else d.coords[name]
+
+    steps = [('nothing yet', lambda: None),
+             ('two_theta *= g', lambda: da.coords['two_theta'].__imul__(sc.scalar(float(rng.uniform(0.6, 0.95))))),
+             ('Ltotal.values[i] = x', lambda: da.coords['Ltotal'].values.__setitem__(
+                 int(rng.integers(0, npix)), float(_draw_si(rng, 1, 0.1, 1e3)[0]))),
+             ('tof *= g', lambda: tofc().__imul__(sc.scalar(float(rng.uniform(0.6, 0.95))))),
+             ('two_theta: unit deg, values rewritten', lambda: (
+                 setattr(da.coords['two_theta'], 'values', np.minimum(np.degrees(da.coords['two_theta'].values), 180.0)),
+                 setattr(da.coords['two_theta'], 'unit', 'deg'))),
+             ('Ltotal.unit = cm (numbers kept)', lambda: setattr(da.coords['Ltotal'], 'unit', 'cm'))]
+    for what, change in steps:
+        try:
+            change()
+        except Exception as e:  # noqa: BLE001  (container work that scipp refuses)
+            ctx.count(f'in situ, in place: {what} not possible ({type(e).__name__})')
+            continue
+        for target in ('dspacing', 'Q', 'energy'):
+            a = scn.convert(da, 'tof', target, scatter=True)
+            b = scn.convert(da.copy(), 'tof', target, scatter=True)
+            ctx.count('convert_calls', 2)
+            _pair(ctx, 'in place between two convert(): tof->' + target, get(a, target), get(b, target), 2 * TOL64,
+                  {**case, 'after': what})
+    ctx.hit('convert: coordinates modified in place between two calls, ' + ('binned' if binned else 'dense'))
 
 
 class _QuantityName(str, enum.Enum):
@@ -1133,7 +1601,9 @@ def requirements(tier):
     ev.update({'route.' + r: 16 for r in DIRECT_ROUTES})
     ev.update({'variances.' + k: 20 for k in OPERANDS})
     ev.update({'variances.judged': 100, 'variances.refusal': 20, 'second_use': 50, 'graph_node': 50,
-               'DataArray operand': 50, 'heavy': 19})
+               'DataArray operand': 50, 'heavy': 19, 'in_place': 500, 'aliasing': 1000, 'fresh_interpreter': 27,
+               'unicode_name.refused': 30, 'route.decoy names: tof->dspacing': 10, 'route.decoy names: tof->Q': 10,
+               'route.in place between two convert(): tof->dspacing': 100})
     return {'events': ev,
             'forced': ['two_theta<1e-9', 'two_theta within 1e-12 of pi', 'two_theta == pi',
                        'integer geometry operand', 'binned operand is a slice of a larger one',
@@ -1154,7 +1624,15 @@ def requirements(tier):
                "convert: pixel dim named 'x'", "convert: pixel dim named 'event'", "convert: pixel dim named 'row'",
                'convert / graph factories: names as numpy.str_, scatter as numpy.bool_',
                'convert / graph factories: names as (str, Enum) members',
-               'heavy: 1d', 'heavy: per_pixel_2d', 'heavy: binned', 'heavy: convert pipeline']
+               'heavy: 1d', 'heavy: per_pixel_2d', 'heavy: binned', 'heavy: convert pipeline',
+               'dims named with code points that are not NFC / NFKC (distinct names that normalise alike)',
+               'convert: coordinates whose names only normalise to tof / Ltotal / two_theta next to the real ones',
+               'first call in a fresh interpreter with minimal imports',
+               'convert: coordinates modified in place between two calls, dense',
+               'convert: coordinates modified in place between two calls, binned',
+               'new operand objects at the addresses of released ones']
+            + ['in place: ' + k for k in MUTATIONS]
+            + ['in place: operand ' + n for n in UNITS_OF]
             + ['layout ' + c for c in OUTER_SHAPES]
             + ['angle unit ' + u for u in sorted(set(ANG_UNITS))]}
 
@@ -1216,7 +1694,26 @@ def run(shard, ctx):
                 for case in (second_use(rng, ctx, K, kernel, origin),
                              graph_node(rng, ctx, K, kernel, k + shard['index'], origin)):
                     ctx.case(case['sig'], trivial=case['trivial'])
+            rng2 = np.random.Generator(np.random.PCG64([shard['seed'], shard['index'], 2]))
+            for kernel in kernels:
+                try:
+                    in_place(rng2, ctx, K, kernel)
+                except Exception:  # noqa: BLE001
+                    ctx.oracle_error('C01 in place / aliasing')
+            if shard['index'] < 3:
+                # (shards 0..2: three fresh interpreters per run, each calls every kernel once; which kernel is the
+                # very first call there rotates with shard and seed)
+                fresh_interpreter(rng2, ctx, K, (3 * shard['index'] + shard['seed']) % len(kernels))
         origin['v'] = 'convert'
+        if shard['calls']:
+            try:
+                rng3 = np.random.Generator(np.random.PCG64([shard['seed'], shard['index'], 3]))
+                decoy_names(rng3, ctx, scn)
+                in_situ_in_place(rng3, ctx, scn, binned=False)
+                in_situ_in_place(rng3, ctx, scn, binned=True)
+            except Exception as e:  # noqa: BLE001
+                ctx.violation('convert_raised', f'convert raised {type(e).__name__}: {e}',
+                              {'in_situ': 'decoy coordinate names / coordinates modified in place'})
         for j in range(shard['routes']):
             try:
                 sig = routes_case(rng, ctx, scn, force=ROUTE_ROUNDS[j] if j < len(ROUTE_ROUNDS) else None)
